@@ -61,13 +61,29 @@ func runC19(c *eng.Ctx, tier string) {
 	l := moduleLocks(c)
 	poll := anchor(p, setecPkg, "(*Store).poll")
 	applyFns := applyFuncs(c)
+	// the apply phase: the function looping over the update set (found from
+	// the installing function, possibly a helper of it) and its helpers
+	paramLoop := func(f *ssa.Function) *mapLoop {
+		for _, ml := range mapLoops(f) {
+			if _, isP := eng.Origin(ml.Range.X).(*ssa.Parameter); isP {
+				mm := ml
+				return &mm
+			}
+		}
+		return nil
+	}
+	hasLoop := func(f *ssa.Function) bool { return paramLoop(f) != nil }
+	applyRoots := map[*ssa.Function]bool{}
+	for _, g := range applyFns {
+		applyRoots[eng.HelperRoot(g, hasLoop)] = true
+	}
 	isApply := func(f *ssa.Function) bool {
 		for _, g := range applyFns {
 			if g == f {
 				return true
 			}
 		}
-		return false
+		return applyRoots[eng.HelperRoot(f, func(x *ssa.Function) bool { return applyRoots[x] })]
 	}
 	lookupFn, _ := lookupRoutine(p)
 
@@ -87,19 +103,13 @@ func runC19(c *eng.Ctx, tier string) {
 		if !isApply(a.Fn) {
 			continue
 		}
-		apply := a.Fn
+		apply := eng.HelperRoot(a.Fn, hasLoop)
 		c.Check(removalGuardedByHandle(a), "R-C19-1", a.Fn, a.In.Pos(), eng.InstrStr(a.In)+" [no handle]", "edge-dominated by the not-present edge of a lookup of the same name in the handle map, in the same critical section (a secret with a live handle or watcher is never dropped)", "holding: "+eng.FactsString(a.In))
 		// dominated by "update is the nil marker" for the same name
-		var loop *mapLoop
-		for _, ml := range mapLoops(apply) {
-			if _, isP := eng.Origin(ml.Range.X).(*ssa.Parameter); isP {
-				mm := ml
-				loop = &mm
-			}
-		}
+		loop := paramLoop(apply)
 		okNil := false
-		for _, cond := range eng.FactsAt(a.In) {
-			if v, isNil, isN := cond.NilCheck(); isN && isNil && loop != nil && eng.Origin(v) == loop.Val && eng.Origin(a.Map.Key) == loop.Key {
+		for _, cond := range eng.FactsX(a.In) {
+			if v, isNil, isN := cond.NilCheck(); isN && isNil && loop != nil && eng.OriginX(v) == loop.Val && eng.OriginX(a.Map.Key) == loop.Key {
 				okNil = true
 			}
 		}
